@@ -351,6 +351,9 @@ def freeze(G):
     G.remove_edge = frozen
     G.remove_edges_from = frozen
     G.clear = frozen
+    G.clear_edges = frozen
+    G.update_node_attr = frozen
+    G.update_node_attr_from = frozen
     G.frozen = True
     return G
 
